@@ -3,7 +3,7 @@
     and followed by [Print Assumptions]. *)
 From Coq Require Import List Reals Ring.
 From Cheetah Require Import Base.Mat Lattice.Track Beam.Moments Beam.MomentsProofs Beam.MomReal
-  Beam.MomCavity Beam.MomCavityProofs Optics.Maps.
+  Beam.MomCavity Beam.MomCavityProofs Beam.WMoments Beam.WMomentsProofs Beam.WMomReal Optics.Maps.
 Import ListNotations.
 
 (** * Any commutative ring with any "inverse" function (R, Q, Z...), any 7x7 map, any particles *)
@@ -160,3 +160,57 @@ Print Assumptions C06_cavity_off_part_nonlinear_refuted.
 Print Assumptions C06_cavity_param_not_psd_refuted.
 Print Assumptions C06_cx_at_zero_length.
 Print Assumptions C06_nonvacuous.
+
+(** * Survival-weighted moments (beams that have passed an aperture: survival probabilities other than 1).
+    cheetah's getters are sum(x w)/sum(w) and unbiased_weighted_covariance; any ring, ANY weights. *)
+Section C06w.
+Variable A : Type.
+Variables (zero one : A) (add mul sub : A -> A -> A) (opp inv : A -> A).
+Hypothesis Rth : ring_theory zero one add mul sub opp (@eq A).
+Notation WMean := (wmean zero add mul inv).
+Notation WCov := (wcov zero add mul sub inv).
+Notation WMoments := (wmoments zero add mul sub inv).
+
+Theorem C06_wmean_map : forall (m : M7 A) (ws : list A) (xs : list (V7 A)),
+  WMean ws (map (mvec add mul m) xs) = mvec add mul m (WMean ws xs).
+Proof. exact (wmean_map inv Rth). Qed.
+Theorem C06_wcov_map : forall (m : M7 A) (ws : list A) (xs : list (V7 A)),
+  WCov ws (map (mvec add mul m) xs) = mmul add mul m (mmul add mul (WCov ws xs) (transpose m)).
+Proof. exact (wcov_map inv Rth). Qed.
+Theorem C06_welement : forall (m : M7 A) (b : PartBeam A),
+  WMoments (app_part add mul m b) = app_param add mul m (WMoments b).
+Proof. exact (wmoments_app inv Rth). Qed.
+Theorem C06_wsegment : forall (L : Type) (skip : L -> bool) (tmap : L -> A -> M7 A)
+    (ltrack_part : L -> PartBeam A -> PartBeam A) (ltrack_param : L -> ParamBeam A -> ParamBeam A),
+  (forall l b, ltrack_part l b = app_part add mul (tmap l (pE b)) b) ->
+  (forall l b, ltrack_param l b = app_param add mul (tmap l (qE b)) b) ->
+  forall (e : elem L) (b : PartBeam A),
+    WMoments (track (I7 zero one) (mmul add mul) (app_part add mul) (@pE A) skip tmap ltrack_part e b)
+    = track (I7 zero one) (mmul add mul) (app_param add mul) (@qE A) skip tmap ltrack_param e (WMoments b).
+Proof. exact (wmoments_segment inv Rth). Qed.
+Theorem C06_wcov_sym : forall (ws : list A) (xs : list (V7 A)), transpose (WCov ws xs) = WCov ws xs.
+Proof. exact (wcov_sym inv Rth). Qed.
+End C06w.
+
+(* all survival probabilities 1: the weighted moments ARE the sample moments of the first part *)
+Theorem C06_wmoments_ones : forall xs : list (V7 R), (1 <= length xs)%nat ->
+  wmean 0 Rplus Rmult Rinv (repeat 1 (length xs)) xs = mean 0 1 Rplus Rmult Rinv xs /\
+  wcov 0 Rplus Rmult Rminus Rinv (repeat 1 (length xs)) xs = cov 0 1 Rplus Rmult Rminus Rinv xs.
+Proof. exact (fun xs H => conj (wmean_ones xs) (wcov_ones xs H)). Qed.
+(* non-negative weights: the weighted covariance is positive semi-definite *)
+Theorem C06_wcov_psd : forall (ws : list R) (xs : list (V7 R)) (v : V7 R), Forall (fun w => 0 <= w) ws ->
+  0 <= dot Rplus Rmult v (mvec Rplus Rmult (wcov 0 Rplus Rmult Rminus Rinv ws xs) v).
+Proof. exact wcov_psd. Qed.
+Example C06_w_nonvacuous :
+  let ws := [1; / 2; 0] in
+  Forall (fun w => 0 <= w) ws /\ wcorr 0 Rplus Rmult Rminus Rinv ws = 2 / 3 /\
+  c0 (wmean 0 Rplus Rmult Rinv ws [mk7 3 0 0 0 0 0 1; mk7 6 0 0 0 0 0 1; mk7 100 0 0 0 0 0 1]) = 4.
+Proof. exact wexample. Qed.
+Print Assumptions C06_wmean_map.
+Print Assumptions C06_wcov_map.
+Print Assumptions C06_welement.
+Print Assumptions C06_wsegment.
+Print Assumptions C06_wcov_sym.
+Print Assumptions C06_wmoments_ones.
+Print Assumptions C06_wcov_psd.
+Print Assumptions C06_w_nonvacuous.
